@@ -16,7 +16,7 @@ Supported(d) == \A i \in 1..Len(d) : /\ d[i][2].k = "iri"
                                      /\ d[i][4].k \in {"iri", "bnode", "lit", "dg"}
 Judge(e) ==
   IF e.ev # "Toy" THEN "panic"
-  ELSE IF e.seed # Seed THEN "ok"                        \* judged by the run configured with that seed
+  ELSE IF e.seed # (IF Wide THEN 100 + Seed ELSE Seed) THEN "ok"      \* judged by the run configured with that seed (100 + s: the 48-byte digest)
   ELSE IF ~Supported(e.d) THEN (IF e.res.k = "unsupported" THEN "ok" ELSE "unsupported-input-not-reported")
   ELSE LET D == [i \in 1..Len(e.d) |-> ConvQ(e.d[i])]
            lim == [pl |-> e.perm_limit, dn |-> e.depth_num, nb |-> Cardinality(BN(D))]
